@@ -783,6 +783,7 @@ pub(crate) mod verif_mpmc {
                 #[kani::unwind($unw)]
                 fn $name() {
                     let _bits = hist::<$lock, $buf, _>(&mut KaniSrc, $cap | ($pre << 4) | ($stream << 8) | (($ops) << 12), $cap, $n, $p);
+                    kani::cover!(true, "W mpmc hist: the end of the script is reachable (assumptions are satisfiable)");
                 }
             };
         }
